@@ -206,7 +206,12 @@ func (f *DB) Reload(path string, validationKey []byte, reloadTimeout time.Durati
 
 		// Validate newDBI
 		newDB := &DB{dbi: newDBI}
-		err = newDB.validateDbKeyOrDestroy(validationKey)
+		if newDBI == f.dbi {
+			// catch-up of the backend we keep serving: it must not be closed on failure
+			err = newDB.ValidateDbKey(validationKey)
+		} else {
+			err = newDB.validateDbKeyOrDestroy(validationKey)
+		}
 		if err != nil {
 			glog.Errorf("Key validation for New DBI failed, using old DB instead")
 			return f, err
